@@ -773,20 +773,24 @@ def tokenize(content: str, lenient: bool = False) -> tuple[list[Token], list[Any
         if fence_span_idx < len(fence_spans) and pos == fence_spans[fence_span_idx][0]:
             span_start, span_end, marker, tag = fence_spans[fence_span_idx]
 
-            # Emit FENCE_OPEN token
+            # Find content boundaries within the span
+            # content_start: position after the first newline (end of opening fence line)
+            # content_end: position of the last newline before closing fence line
+            first_newline = content.index("\n", span_start)
+
+            # Emit FENCE_OPEN token.  Its column is that of the first backtick, so the parser
+            # can tell how deeply a bare literal zone is indented (a span starts at the
+            # beginning of the fence line and therefore carries no INDENT token).
+            opening_line = content[span_start:first_newline]
+            fence_indent = len(opening_line) - len(opening_line.lstrip(" "))
             tokens.append(
                 Token(
                     TokenType.FENCE_OPEN,
                     {"fence_marker": marker, "info_tag": tag},
                     line,
-                    column,
+                    column + fence_indent,
                 )
             )
-
-            # Find content boundaries within the span
-            # content_start: position after the first newline (end of opening fence line)
-            # content_end: position of the last newline before closing fence line
-            first_newline = content.index("\n", span_start)
             content_start = first_newline + 1
 
             # Find the start of the closing fence line
